@@ -129,10 +129,17 @@ G_RESOLVE = T("TablesGuards", GUARDS_RESOLVE) + T("TablesGuardsMatrices", GUARDS
 # `str.isidentifier` beyond ASCII: the interpreter's identifier classes, regenerated on every run (Generated/Ident.lean)
 IDENT_TABLES = T("TablesIdent", ["tables_valid_deme_name", "tables_xid_start", "tables_xid_continue", "tables_xid_start_wf",
                                  "tables_xid_continue_wf", "tables_xid_start_sub_continue", "isIdStart_ascii", "isIdCont_ascii"])
+# translator tie of `class Builder` (C02, C18): Generated/GuardsBuilder.lean, Model/BuilderProg.lean
+GUARDS_BUILDER = ["builder_tie_init_dict", "builder_tie_add_deme_dict", "builder_tie_add_migration_dict", "builder_tie_add_pulse_dict",
+                  "builder_tieV_init", "builder_tieV_add_deme", "builder_tieV_add_migration", "builder_tieV_add_pulse",
+                  "builder_tie_init", "builder_tie_add_deme", "builder_tie_add_migration", "builder_tie_add_pulse",
+                  "builder_tie_call", "builder_tie_history", "builder_signatures", "builder_call_arguments",
+                  "builder_parameter_kinds", "builder_sentinel", "builder_fromdict_body"]
 CODEC_TABLES = T("TablesCodec", ["tables_codec_yaml_load", "tables_codec_yaml_dump", "tables_codec_calls"])
 EXTRA = {
     "C01": T("TablesResolve", RESOLVE_TABLES) + T("TablesConst", ["tables_rel_tol"]) + G_RESOLVE + IDENT_TABLES,
-    "C02": T("TablesResolve", RESOLVE_TABLES),
+    "C02": T("TablesResolve", RESOLVE_TABLES) + T("TablesGuardsBuilder", GUARDS_BUILDER)
+    + T("TablesFacts", ["fact_builder_resolve_only_passes_data"]),
     "C03": T("TablesResolve", RESOLVE_TABLES) + T("TablesConst", ["tables_rel_tol"]) + G_RESOLVE + IDENT_TABLES,
     "C05": T("TablesResolve", RESOLVE_TABLES[:7]) + T("TablesGuardsSimplify", GUARDS_SIMPLIFY),
     "C06": T("TablesResolve", RESOLVE_TABLES[:7]),
@@ -147,7 +154,8 @@ EXTRA = {
     "C13": T("TablesConst", ["tables_rel_tol"]) + T("TablesGuardsSizeAt", GUARDS_SIZE_AT),
     "C14": T("TablesResolve", EVENT_TABLES) + T("TablesGuardsViews", GUARDS_VIEWS) + T("TablesGuardsRecords", GUARDS_RECORDS),
     "C15": T("TablesFacts", ["fact_rename_demes_copies_first"]) + T("TablesGuardsRename", GUARDS_RENAME) + IDENT_TABLES[:3],
-    "C18": T("TablesFacts", ["fact_fromdict_copies_first", "fact_builder_resolve_passes_data", "fact_fromdict_copy_is_unaliased", "fact_deepcopy_unaliased_shape", "fact_builder_resolve_only_passes_data"]),
+    "C18": T("TablesFacts", ["fact_fromdict_copies_first", "fact_builder_resolve_passes_data", "fact_fromdict_copy_is_unaliased", "fact_deepcopy_unaliased_shape", "fact_builder_resolve_only_passes_data"])
+    + T("TablesGuardsBuilder", GUARDS_BUILDER),
     "C19": T("TablesMs", ["tables_cli_parse_flags", "tables_cli_parse_tests"]) + T("TablesGuardsCli", GUARDS_CLI),
     "C17": T("TablesGuardsHandles", GUARDS_HANDLES),
     "C20": T("TablesGuardsCost", GUARDS_COST),
